@@ -146,6 +146,10 @@ def _ff(field, observers):
     return np.array(observers) * 2.0 + 1.0 if field in "BH" else None
 
 
+def _ff2(field, observers):
+    return np.array(observers) ** 2 - 0.7 if field in "BH" else None
+
+
 FORM_CLASSES = ["Cuboid", "Cylinder", "CylinderSegment", "Sphere", "Tetrahedron", "Triangle", "TriangularMesh", "Circle",
                 "Loop", "Polyline", "Line", "Dipole", "CustomSource"]
 
@@ -155,7 +159,7 @@ def mk_obj(cls, i=0, plen=1):
 
     p, r = pose(i + 1)
     if cls == "CustomSource":
-        o = magpy.misc.CustomSource(field_func=_ff, position=p, orientation=r)
+        o = magpy.misc.CustomSource(field_func=_ff if i == 0 else _ff2, position=p, orientation=r)
     else:
         kw, _ = spec(cls, i)
         o = ctor(cls)(position=p, orientation=r, **kw)
